@@ -39,6 +39,7 @@ type Engine struct {
 	funcLits   map[*ast.FuncLit]*Unit
 	finalCache map[string][]int
 	verifDir   string
+	bindings   Bindings
 }
 
 func newEngine(verifDir string) *Engine {
